@@ -220,6 +220,12 @@ func c16Runs(c *core.Case, o *core.Outcome) {
 	var gw *engine.Gateway
 	if p.Gateway {
 		gw = engine.NewGateway(200)
+		// a gateway that is unavailable for a moment (the first push or two are refused) is a working gateway afterwards
+		gw.RefuseFirst = c.Rng("refuse").IntN(3)
+		if r0 := p.Runs[0]; !r0.SetupFail && !r0.NilRunFn && !r0.PreCancel && gw.RefuseFirst != 0 {
+			// an ordinary first run: exactly its first push (the one after setup) falls into the outage
+			gw.RefuseFirst = 1
+		}
 		defer gw.Close()
 	}
 	var runCtx []context.Context
@@ -408,11 +414,19 @@ func c16Runs(c *core.Case, o *core.Outcome) {
 			if p.NoIterMetrics {
 				wantS, wantF, wantD = 0, 0, 0
 			}
-			if n == 0 || bad > 0 || held["success"] != wantS || held["fail"] != wantF || held["dropped"] != wantD {
+			if n == 0 && gw.RefuseFirst == 1 && ri == 0 && !rp.SetupFail && !rp.PreCancel && !rp.NilRunFn {
+				o.Violate("gateway-after-outage:"+desc, "the gateway refused the run's first push (503) and accepted everything after it, yet it never received the finished run's metrics: the result is %d/%d/%d (%s)", wantS, wantF, wantD, desc)
+				return
+			} else if n == 0 && gw.RefuseFirst > 0 {
+				// every push of this run fell into the gateway's outage: nothing to compare
+				o.AddObs("gateway_outage_runs", 1)
+			} else if n == 0 || bad > 0 || held["success"] != wantS || held["fail"] != wantF || held["dropped"] != wantD {
 				o.Violate("gateway:"+desc, "after this run the push gateway (%d pushes so far, %d unreadable) holds success=%d fail=%d dropped=%d for the job, the run's result is %d/%d/%d: what is exported mixes in an earlier run or misses this one (%s)", n, bad, held["success"], held["fail"], held["dropped"], wantS, wantF, wantD, desc)
 				return
 			}
-			o.AddObs("gateway_states_checked", 1)
+			if n > 0 {
+				o.AddObs("gateway_states_checked", 1)
+			}
 		}
 		time.Sleep(250 * time.Millisecond)
 		if !check("250ms after return") {
